@@ -112,8 +112,141 @@ impl Cond {
     }
 }
 
+/// right-hand sides of `[local] x = R` beyond the three classic forms; every literal position takes
+/// every literal of the alphabet, binary nesting depth ≤ 2, with and without parentheses
+#[derive(Clone, Debug, PartialEq, Eq, Hash)]
+pub enum Rhs {
+    /// `lit`
+    Lit(Lit),
+    /// `y or lit`
+    Or(u8, Lit),
+    /// `c and lit`
+    And(Cond, Lit),
+    /// `c and l1 or l2`
+    AndOr(Cond, Lit, Lit),
+    /// `(c and l1) or l2`
+    PAndOr(Cond, Lit, Lit),
+    /// `y or (z or lit)`
+    OrOr(u8, u8, Lit),
+    /// `c and (y or lit)`
+    AndPOr(Cond, u8, Lit),
+    /// `y or (c and lit)`
+    OrPAnd(u8, Cond, Lit),
+}
+impl Rhs {
+    pub fn text(&self) -> String {
+        let ct = |c: &Cond| if c.is_logic() { format!("({})", c.text()) } else { c.text() };
+        let v = |x: &u8| VARS[*x as usize];
+        match self {
+            Rhs::Lit(l) => l.text().to_string(),
+            Rhs::Or(y, l) => format!("{} or {}", v(y), l.text()),
+            Rhs::And(c, l) => format!("{} and {}", ct(c), l.text()),
+            Rhs::AndOr(c, l1, l2) => format!("{} and {} or {}", ct(c), l1.text(), l2.text()),
+            Rhs::PAndOr(c, l1, l2) => format!("({} and {}) or {}", ct(c), l1.text(), l2.text()),
+            Rhs::OrOr(y, z, l) => format!("{} or ({} or {})", v(y), v(z), l.text()),
+            Rhs::AndPOr(c, y, l) => format!("{} and ({} or {})", ct(c), v(y), l.text()),
+            Rhs::OrPAnd(y, c, l) => format!("{} or ({} and {})", v(y), ct(c), l.text()),
+        }
+    }
+    fn cond(&self) -> Option<&Cond> {
+        match self {
+            Rhs::And(c, _) | Rhs::AndOr(c, _, _) | Rhs::PAndOr(c, _, _) | Rhs::AndPOr(c, _, _) | Rhs::OrPAnd(_, c, _) => Some(c),
+            _ => None,
+        }
+    }
+    fn vars(&self, out: &mut [bool; 2]) {
+        match self {
+            Rhs::Or(y, _) | Rhs::AndPOr(_, y, _) | Rhs::OrPAnd(y, _, _) => out[*y as usize] = true,
+            Rhs::OrOr(y, z, _) => {
+                out[*y as usize] = true;
+                out[*z as usize] = true;
+            }
+            _ => {}
+        }
+        if let Some(c) = self.cond() {
+            c.vars(out);
+        }
+    }
+    fn map(&self, f: &dyn Fn(u8) -> u8) -> Rhs {
+        match self {
+            Rhs::Lit(l) => Rhs::Lit(*l),
+            Rhs::Or(y, l) => Rhs::Or(f(*y), *l),
+            Rhs::And(c, l) => Rhs::And(map_cond(c, f), *l),
+            Rhs::AndOr(c, l1, l2) => Rhs::AndOr(map_cond(c, f), *l1, *l2),
+            Rhs::PAndOr(c, l1, l2) => Rhs::PAndOr(map_cond(c, f), *l1, *l2),
+            Rhs::OrOr(y, z, l) => Rhs::OrOr(f(*y), f(*z), *l),
+            Rhs::AndPOr(c, y, l) => Rhs::AndPOr(map_cond(c, f), f(*y), *l),
+            Rhs::OrPAnd(y, c, l) => Rhs::OrPAnd(f(*y), map_cond(c, f), *l),
+        }
+    }
+    /// one-step simplifications
+    fn shrinks(&self) -> Vec<Rhs> {
+        let mut v = Vec::new();
+        let lits = |l: &Lit| lower_lits(*l);
+        match self {
+            Rhs::Lit(l) => v.extend(lits(l).into_iter().map(Rhs::Lit)),
+            Rhs::Or(y, l) => {
+                v.push(Rhs::Lit(*l));
+                v.extend(lits(l).into_iter().map(|l2| Rhs::Or(*y, l2)));
+                v.extend((0..*y).map(|y2| Rhs::Or(y2, *l)));
+            }
+            Rhs::And(c, l) => {
+                v.push(Rhs::Lit(*l));
+                v.extend(shrink_cond(c).into_iter().map(|c2| Rhs::And(c2, *l)));
+                v.extend(lits(l).into_iter().map(|l2| Rhs::And(c.clone(), l2)));
+            }
+            Rhs::AndOr(c, l1, l2) | Rhs::PAndOr(c, l1, l2) => {
+                let mk = |c: Cond, a: Lit, b: Lit| if matches!(self, Rhs::AndOr(..)) { Rhs::AndOr(c, a, b) } else { Rhs::PAndOr(c, a, b) };
+                if let Rhs::PAndOr(..) = self {
+                    v.push(Rhs::AndOr(c.clone(), *l1, *l2));
+                }
+                v.push(Rhs::Lit(*l1));
+                v.push(Rhs::Lit(*l2));
+                v.push(Rhs::And(c.clone(), *l1));
+                v.extend(shrink_cond(c).into_iter().map(|c2| mk(c2, *l1, *l2)));
+                v.extend(lits(l1).into_iter().map(|l| mk(c.clone(), l, *l2)));
+                v.extend(lits(l2).into_iter().map(|l| mk(c.clone(), *l1, l)));
+            }
+            Rhs::OrOr(y, z, l) => {
+                v.push(Rhs::Or(*y, *l));
+                v.push(Rhs::Or(*z, *l));
+                v.extend(lits(l).into_iter().map(|l2| Rhs::OrOr(*y, *z, l2)));
+                v.extend((0..*y).map(|y2| Rhs::OrOr(y2, *z, *l)));
+                v.extend((0..*z).map(|z2| Rhs::OrOr(*y, z2, *l)));
+            }
+            Rhs::AndPOr(c, y, l) => {
+                v.push(Rhs::Or(*y, *l));
+                v.push(Rhs::And(c.clone(), *l));
+                v.extend(shrink_cond(c).into_iter().map(|c2| Rhs::AndPOr(c2, *y, *l)));
+                v.extend(lits(l).into_iter().map(|l2| Rhs::AndPOr(c.clone(), *y, l2)));
+                v.extend((0..*y).map(|y2| Rhs::AndPOr(c.clone(), y2, *l)));
+            }
+            Rhs::OrPAnd(y, c, l) => {
+                v.push(Rhs::Or(*y, *l));
+                v.push(Rhs::And(c.clone(), *l));
+                v.extend(shrink_cond(c).into_iter().map(|c2| Rhs::OrPAnd(*y, c2, *l)));
+                v.extend(lits(l).into_iter().map(|l2| Rhs::OrPAnd(*y, c.clone(), l2)));
+                v.extend((0..*y).map(|y2| Rhs::OrPAnd(y2, c.clone(), *l)));
+            }
+        }
+        v
+    }
+}
+
+/// one canonical spelling per statement: the classic forms keep their dedicated variants
+pub fn norm(s: FSt) -> FSt {
+    match s {
+        FSt::Set(false, x, Rhs::Lit(l)) => FSt::Assign(x, l),
+        FSt::Set(false, x, Rhs::Or(y, l)) if x == y => FSt::OrAssign(x, l),
+        FSt::Set(false, x, Rhs::AndOr(c, l1, l2)) => FSt::AndOr(x, c, l1, l2),
+        s => s,
+    }
+}
+
 #[derive(Clone, Debug, PartialEq, Eq, Hash)]
 pub enum FSt {
+    /// `[local] x = R` for the right-hand sides of `Rhs` (the classic forms below stay as they are)
+    Set(bool, u8, Rhs),
     /// `x = lit`
     Assign(u8, Lit),
     /// `if c then B end`
@@ -163,6 +296,7 @@ impl FSt {
     fn cond(&self) -> Option<&Cond> {
         match self {
             FSt::If(c, _) | FSt::IfElse(c, _, _) | FSt::IfReturn(c) | FSt::AndOr(_, c, _, _) | FSt::While(c, _) | FSt::Repeat(_, c) | FSt::IfBreak(c) => Some(c),
+            FSt::Set(_, _, r) => r.cond(),
             _ => None,
         }
     }
@@ -190,6 +324,10 @@ pub fn vars_used(b: &[FSt], out: &mut [bool; 2]) {
     for s in b {
         match s {
             FSt::Assign(v, _) | FSt::OrAssign(v, _) | FSt::AndOr(v, _, _, _) => out[*v as usize] = true,
+            FSt::Set(_, v, r) => {
+                out[*v as usize] = true;
+                r.vars(out);
+            }
             _ => {}
         }
         if let Some(c) = s.cond() {
@@ -242,6 +380,9 @@ impl FR {
         match s {
             FSt::Assign(v, l) => {
                 let _ = writeln!(t, "{} = {}", VARS[*v as usize], l.text());
+            }
+            FSt::Set(local, v, r) => {
+                let _ = writeln!(t, "{}{} = {}", if *local { "local " } else { "" }, VARS[*v as usize], r.text());
             }
             FSt::OrAssign(v, l) => {
                 let _ = writeln!(t, "{0} = {0} or {1}", VARS[*v as usize], l.text());
@@ -320,6 +461,10 @@ pub struct FAlphabet {
     /// conditions usable in `x = c and l or l`
     pub andor_conds: Vec<Cond>,
     pub vars: Vec<u8>,
+    /// conditions inside the extended right-hand sides (empty = no extended forms)
+    pub rhs_conds: Vec<Cond>,
+    /// literals in every operand position of the extended right-hand sides
+    pub rhs_lits: Vec<Lit>,
     pub if_return: bool,
     /// loop forms: while / repeat conditions (empty = no loops at all)
     pub loop_conds: Vec<Cond>,
@@ -419,6 +564,39 @@ fn fleaves(a: &FAlphabet, in_loop: bool) -> Vec<FSt> {
         for c in &a.andor_conds {
             for &(l1, l2) in &a.andor {
                 v.push(FSt::AndOr(x, c.clone(), l1, l2));
+            }
+        }
+    }
+    if !a.rhs_conds.is_empty() {
+        for &x in &a.vars {
+            let mut forms: Vec<Rhs> = Vec::new();
+            for &l in &a.rhs_lits {
+                forms.push(Rhs::Lit(l));
+                for c in &a.rhs_conds {
+                    forms.push(Rhs::And(c.clone(), l));
+                    for &l2 in &a.rhs_lits {
+                        forms.push(Rhs::AndOr(c.clone(), l, l2));
+                        forms.push(Rhs::PAndOr(c.clone(), l, l2));
+                    }
+                }
+                // the variable operand ranges over every local (with one local: x itself)
+                for &y in &a.vars {
+                    forms.push(Rhs::Or(y, l));
+                    forms.push(Rhs::OrOr(y, y, l));
+                    for c in &a.rhs_conds {
+                        forms.push(Rhs::AndPOr(c.clone(), y, l));
+                        forms.push(Rhs::OrPAnd(y, c.clone(), l));
+                    }
+                }
+            }
+            for local in [false, true] {
+                for r in &forms {
+                    let st = norm(FSt::Set(local, x, r.clone()));
+                    // the classic reassignment forms are produced above from lits / or_lits / andor
+                    if matches!(st, FSt::Set(..)) {
+                        v.push(st);
+                    }
+                }
             }
         }
     }
@@ -684,6 +862,17 @@ fn shrink_fstat(s: &FSt) -> Vec<FSt> {
                 v.push(FSt::Assign(0, *l));
             }
         }
+        FSt::Set(local, x, r) => {
+            if *local {
+                v.push(norm(FSt::Set(false, *x, r.clone())));
+            }
+            for r2 in r.shrinks() {
+                v.push(norm(FSt::Set(*local, *x, r2)));
+            }
+            if *x == 1 {
+                v.push(norm(FSt::Set(*local, 0, r.clone())));
+            }
+        }
         FSt::OrAssign(x, l) => {
             v.push(FSt::Assign(*x, *l));
             for l2 in lower_lits(*l) {
@@ -841,6 +1030,7 @@ pub fn map_vars(b: &FBlock, f: &dyn Fn(u8) -> u8) -> FBlock {
     b.iter()
         .map(|s| match s {
             FSt::Assign(x, l) => FSt::Assign(f(*x), *l),
+            FSt::Set(local, x, r) => norm(FSt::Set(*local, f(*x), r.map(f))),
             FSt::OrAssign(x, l) => FSt::OrAssign(f(*x), *l),
             FSt::AndOr(x, c, l1, l2) => FSt::AndOr(f(*x), map_cond(c, f), *l1, *l2),
             FSt::IfReturn(c) => FSt::IfReturn(map_cond(c, f)),
